@@ -24,7 +24,8 @@ EXTENDS Integers, Sequences, FiniteSets, TLC
 
 CONSTANTS Repos, Tags, Cids, BlobIds, ManIds, Cat, UploadIds, ImmChoices, BlockSize, Pos,
           Policies,     \* subset of {"seq", "conc"}: read policies explored
-          ListFaults    \* set of listing faults a member may be wrapped with: [k, code];
+          ListFaults    \* set of listing faults a member may be wrapped with: [k, code]
+                        \* (the wrapped member yields at most k items, then the error);
                         \* code = "" means none
 
 VARIABLES imm,
@@ -94,32 +95,33 @@ Merge(a, b, pos) ==
        IN IF code = "" THEN A!OkItems(items) ELSE [ErrR(code) EXCEPT !.items = items]
 PosOf(o) == IF o.op = "ListTags" THEN Pos.t ELSE IF o.op = "ListRepos" THEN Pos.r ELSE Pos.c
 
-Combine(p, o, a, b) ==
+Combine(p, f, o, a, b) ==
   CASE o.op \in DigestReads -> ReadUnder(p, a, b)
     [] o.op \in TagReads -> TagRead(a, b)
-    [] o.op \in Lists -> {Merge(Faulted(a, lf[0]), Faulted(b, lf[1]), PosOf(o))}
+    [] o.op \in Lists -> {Merge(Faulted(a, f[0]), Faulted(b, f[1]), PosOf(o))}
     [] o.op \in Pushes -> Push(a, b)
     [] OTHER -> Both(a, b)
 
 \* ----------------------------------------------------------------- steps --
 Init ==
   /\ A!Init /\ B!Init
-  /\ pol \in Policies
-  /\ lf \in [{0, 1} -> ListFaults]
+  /\ pol = "seq"
+  /\ lf = [i \in {0, 1} |-> NoFault]
   /\ issued = {}
   /\ via = "-" /\ last = [op |-> "-"]
   /\ res = NoRes
 
-\* A call through the unifier.  A composite upload id the unifier never issued does not
-\* decode: Resume fails before any member is asked.
-ViaUnifier(o) ==
+\* A call through a unifier built with read policy p over the members wrapped with listing
+\* faults f.  A composite upload id the unifier never issued does not decode: Resume fails
+\* before any member is asked.
+ViaUnifier(o, p, f) ==
   /\ via' = "u" /\ last' = o
-  /\ UNCHANGED cfgvars
+  /\ pol' = p /\ lf' = f /\ UNCHANGED imm
   /\ IF o.op = "Resume" /\ o.u \notin issued
        THEN /\ res' = ErrR("FAIL") /\ res0' = NoRes /\ res1' = NoRes
             /\ UNCHANGED <<mem0, mem1, issued>>
        ELSE /\ A!Apply(o) /\ B!Apply(o)
-            /\ res' \in Combine(pol, o, res0', res1')
+            /\ res' \in Combine(p, f, o, res0', res1')
             /\ issued' = IF o.op = "PushBlobChunked" /\ res'.ok THEN issued \cup {o.u} ELSE issued
 
 \* A call made on one member behind the unifier's back.
@@ -181,15 +183,15 @@ UnionViewStep ==
   /\ (LO.op \in DigestReads /\ res'.ok) => res' \in {res0', res1'}
   /\ (LO.op \in DigestReads) => (res'.ok = (res0'.ok \/ res1'.ok))
   \* listings: sorted, duplicate free, the union
-  /\ (LO.op = "ListTags" /\ lf[0].code = "" /\ lf[1].code = "") =>
+  /\ (LO.op = "ListTags" /\ lf'[0].code = "" /\ lf'[1].code = "") =>
         /\ res'.ok => (res'.items = A!After(DOMAIN tags0[LO.r] \cup DOMAIN tags1[LO.r], Pos.t, LO.startpos))
         /\ (A!HasContent(LO.r) \/ B!HasContent(LO.r)) => res'.ok
         /\ ~res'.ok => (res'.code = "NAME_UNKNOWN" /\ ~res0'.ok /\ ~res1'.ok)
-  /\ (LO.op = "ListRepos" /\ lf[0].code = "" /\ lf[1].code = "") =>
+  /\ (LO.op = "ListRepos" /\ lf'[0].code = "" /\ lf'[1].code = "") =>
         /\ res'.ok /\ SortedNoDup(res'.items, Pos.r)
         /\ \A r \in Repos : ((A!HasContent(r) \/ B!HasContent(r)) /\ Pos.r[r] > LO.startpos) => r \in ToSet(res'.items)
         /\ \A r \in ToSet(res'.items) : Pos.r[r] > LO.startpos /\ (r \in touched0 \cup touched1 \/ A!HasContent(r) \/ B!HasContent(r))
-  /\ (LO.op = "Referrers" /\ lf[0].code = "" /\ lf[1].code = "" /\ res'.ok) =>
+  /\ (LO.op = "Referrers" /\ lf'[0].code = "" /\ lf'[1].code = "" /\ res'.ok) =>
         res'.items = A!Asc({x \in DOMAIN mans0[LO.r] : A!Subj(x, mans0[LO.r][x]) = LO.c}
                                       \cup {x \in DOMAIN mans1[LO.r] : B!Subj(x, mans1[LO.r][x]) = LO.c}, Pos.c)
   \* with a faulty member: the merged items of what was delivered, then the error
@@ -209,8 +211,9 @@ TagConflictNeverSilentStep ==
 
 \* C15, second sentence: every write goes to both members and reports success only if both
 \* succeeded (each member's own step is A!Apply / B!Apply by construction of ViaUnifier).
+Undecodable == LO.op = "Resume" /\ LO.u \notin issued     \* no member is asked
 WriteBothStep ==
-  (U /\ LO.op \notin ReadOps) =>
+  (U /\ LO.op \notin ReadOps /\ ~Undecodable) =>
   /\ res'.ok => (res0'.ok /\ res1'.ok)
   /\ (res0'.ok /\ res1'.ok) => res'.ok
 \* a read through the unifier changes neither member
@@ -249,5 +252,5 @@ PoliciesAgreeStep ==
 PoliciesAgree == [][PoliciesAgreeStep]_vars
 
 TypeOK == A!TypeOK /\ B!TypeOK /\ pol \in {"seq", "conc"} /\ via \in {"-", "u", "m0", "m1"}
-MemView == <<imm, mem0, mem1, pol, lf, issued>>
+MemView == <<imm, mem0, mem1, issued>>
 =============================================================================
